@@ -284,6 +284,9 @@ def handle (op : String) (args : List String) : Option String :=
   | "check", [p, o] => do
     let P ← pProg (← parseSX p)
     let obs ← pObs (← parseSX o)
+    let d := den P (oracleOf obs.outs)
+    if let some bad := d.2.find? (·.undefined) then
+      return s!"skip inconsistent-split {renderKey bad.key}"
     let (diffs, n) := checkAll P obs
     if diffs.isEmpty then pure s!"ok {n} {obs.jobs.length}"
     else pure ("diff\t" ++ "\t".intercalate (diffs.take 8))
